@@ -44,4 +44,44 @@ PROPS = {
         ],
         "nontrivial": "a case is non-trivial when it contains at least one slot reuse (an `alloc` answered with a previously released id) and one failed release; distinct = distinct op-line sequences",
     },
+    "C01": {
+        "title": "Rust map: every call history agrees with a reference ordered map",
+        "module": "BPT.Props.C01",
+        "tags": ["C01"],
+        "theorems": [
+            "BPT.Props.C01.step_refines",
+            "BPT.Props.C01.run_refines",
+            "BPT.Props.C01.refines_btreemap",
+            "BPT.Props.C01.reachable_inv",
+            "BPT.Props.C01.abs_sorted",
+            "BPT.Props.C01.insert_keeps_first_key_object",
+            "BPT.Props.C01.insert_absent",
+            "BPT.Props.C01.lookup_insert_ne",
+            "BPT.Props.C01.lookup_erase_ne",
+            "BPT.Props.C01.lookup_adjust_ne",
+            "BPT.Rust.insertRec_spec",
+            "BPT.Rust.removeRec_spec",
+            "BPT.Rust.insert_spec",
+            "BPT.Rust.remove_spec",
+            "BPT.Rust.get_spec",
+            "BPT.Rust.len_spec",
+            "BPT.Rust.getMutWrite_spec",
+            "BPT.Rust.new_spec",
+        ],
+        "ties": [
+            "BPT.Tie.rust_min_capacity",
+            "BPT.Tie.rust_leaf_min_keys_eq", "BPT.Tie.rust_branch_min_keys_eq",
+            "BPT.Tie.rust_leaf_is_full_eq", "BPT.Tie.rust_branch_is_full_eq",
+            "BPT.Tie.rust_leaf_is_underfull_eq", "BPT.Tie.rust_branch_is_underfull_eq",
+            "BPT.Tie.rust_leaf_can_donate_eq", "BPT.Tie.rust_branch_can_donate_eq",
+            "BPT.Tie.rust_leaf_split_mid_node_eq", "BPT.Tie.rust_leaf_split_mid_insert_eq",
+            "BPT.Tie.rust_leaf_insert_goes_left_eq", "BPT.Tie.rust_branch_split_mid_eq",
+            "BPT.Tie.rust_rebalance_tests",
+        ],
+        "suites": [
+            {"kind": "rust", "suite": "tree-ops",
+             "quick": {"cases": 100, "len": 300}, "thorough": {"cases": 3000, "len": 400}},
+        ],
+        "nontrivial": "a case is non-trivial when the tree reached a branch root (at least one leaf split) and at least one removal returned a value; distinct = distinct op-line sequences; structural events (splits, merges, root growth, multi-level collapse) are counted by the harness under `structural_events`",
+    },
 }
